@@ -159,6 +159,10 @@ def run(ctx):
             e = tr["ev"][0]
             ctx.violation(v[2], {"text": "".join(chr(c) for c in e["cps"]), "textrepr": tr["textrepr"]},
                           expected="accepted iff upper-cased, whitespace-free text is a non-empty amino-acid word", actual={"accepted": e["ok"], "sequence": "".join(chr(c) for c in e["seq"])})
+    from .. import orderswap
+    items = [{"obj": n_, "seq": t_, "q": "__construct__"} for n_, t_ in enumerate(
+        ["KEKEGS", "kekegs \n", "KEK-EGS", "KEKXEGS", "KEK1EGS", "", "   ", "KEK*", "B", "ke ke\tgs", "KEKÉGS", "K.E", "ACDEFGHIKLMNPQRSTVWY", "O", "U", "J", "Z", "K\u00a0E", "K\u200bE", ">KE"])]
+    orderswap.env_differential(ctx, items, "accepted-invalid-text", "c13env")
     ctx.sample({"trace": {"text": trs[0]["textrepr"], "accepted": trs[0]["ev"][0]["ok"]}})
     ctx.extra["unicode_code_points_tried"] = len(cps)
     ctx.assumptions += ["'upper-casing' and 'whitespace' are Python's str.upper / str.isspace; their tables for the code points used are exported to TLC (trusted)",
